@@ -444,3 +444,22 @@ Proof.
       apply G. lia.
     + lia.
 Qed.
+
+(* ---------- corollaries: index in range, a zero-probability state is never returned ---------- *)
+Lemma bst_segs_labels p l : (1 <= length p)%nat -> In l (map snd (bst_segs p)) -> (0 <= l < Z.of_nat (length p))%Z.
+Proof.
+  intro HK. unfold bst_segs, leafsegs. rewrite map_map. intro H. apply in_map_iff in H. destruct H as (x & <- & Hx).
+  pose proof (leaves_range _ _ _ _ Hx) as (H1 & _). pose proof (leaves_le _ _ _ _ Hx ltac:(lia)). simpl. lia.
+Qed.
+
+Theorem bst_range_nonzero (p : list Q) : (1 <= length p)%nat -> nonneg p -> forall b, create_bst p = Some b ->
+  forall u, 0 <= u -> u < qsum p ->
+    (0 <= bst_sample (length p - 1) b u < Z.of_nat (length p))%Z
+    /\ ~ nth (Z.to_nat (bst_sample (length p - 1) b u)) p 0 == 0.
+Proof.
+  intros HK Hnn b Hb u H0 H1. destruct (bst_law p HK Hnn) as (b' & Hb' & Len & _ & Nn & Loc).
+  rewrite Hb in Hb'. inversion Hb'; subst b'. pose proof (Loc u H0 H1) as L.
+  pose proof (bst_segs_labels p _ HK (locate_in _ _ _ _ L)) as R. split; [exact R|].
+  intro Hz. apply (locate_never_zero 0 (bst_segs p) u (bst_sample (length p - 1) b u)); [assumption | assumption | | assumption].
+  rewrite <- (Z2Nat.id (bst_sample (length p - 1) b u)) at 1 by lia. rewrite Len by lia. exact Hz.
+Qed.
